@@ -17,6 +17,10 @@ def _hs():
                      "returns the highest interest, enabled is all())", sym="x, y in 6, metadata, root answers"))
     hs.append(H("c08::c08_vec2_generic_interest_highest", tier="thorough", kind="finding", role="vec_interest_highest",
                 desc="vec![layer, layer] with any self-consistent answers: same defect", sym=SYM_S))
+    hs.append(H("c08::c08_vec3_levelfilters", tier="quick",
+                desc="vec![LevelFilter x, y, z] on a root: interest (agreed value else sometimes) and hint (max) sound w.r.t. enabled = all()",
+                sym="x, y, z in 6, metadata, root answers"))
+    hs.append(H("c08::c08_vec3_generic", tier="thorough", desc="vec![layer, layer, layer] with any self-consistent answers", sym=SYM_S))
     hs.append(H("c08::c08_vec0_summaries", tier="quick", kind="finding", role="vec_empty_summaries",
                 desc="empty Vec on a root: interest never / hint OFF while enabled() is true", sym=SYM_S))
     hs.append(H("c08::c08_reach", tier="quick", kind="reach", desc="vacuity twin: always + enabled + hint == level reachable on a 2-layer stack"))
@@ -51,8 +55,7 @@ SPEC = {
                "per-subscriber-filter stacks (Filtered needs the Registry for FilterId registration and FilterState::take_interest; "
                "the has_subscriber_filter / inner_is_registry branches of pick_interest and pick_level_hint are therefore not "
                "reached — C07 covers Filtered over the Registry); field-set dependent filters; expression depth > 2 over concrete "
-               "leaves; Targets with >= 2 directives or a default level (measured: undecided after 540 s under the 10 GB cap; Targets' matching semantics is C11's subject); Vec of >= 2 elements inside larger stacks (unsound by "
-               "finding vec_interest_highest, isolated in its own harness); event_enabled (a per-event decision, not a static summary)",
+               "leaves; Targets with >= 2 directives or a default level (measured: undecided after 540 s under the 10 GB cap; Targets' matching semantics is C11's subject); Vec of >= 2 elements inside larger stacks (Vec of 2 and 3 elements is checked alone on the root); event_enabled (a per-event decision, not a static summary)",
     "stubs": ["std::rt::thread_cleanup -> no-op", "core::fmt::write -> Ok(()) (panic / debug_assert text only)",
               "once_cell / sharded-slab / thread_local shims linked, no Registry constructed"],
     "assumptions": [
